@@ -281,6 +281,13 @@ def integration_item_(item, sdef):
             pairs = urllib.parse.parse_qsl(parts.query, keep_blank_values=True)
             params = dict(pairs)
             acc.state((template, mode, tuple(sorted(assign.items())), mtype, what))
+            if not params and template == 'manifest_vod_aiv':
+                # this template writes no query string at all: one structural fact instead of one report per option
+                if any(cgi_map.get(n) is not None and applies(cgi_map[n], mtype, use) for n in assign):
+                    acc.violation(sig('template-forwards-nothing', template),
+                                  f'{url}: the {what} URL of {rep.id} carries no option at all ({u}); the request set '
+                                  f'{sorted(assign)}', rec)
+                continue
             # (i) only options applicable to this media type are forwarded
             for name in params:
                 opt = cgi_map.get(name)
@@ -337,10 +344,55 @@ def integration_item_(item, sdef):
     return acc
 
 
+LEGACY = {'hand_made.mpd': {}, 'enc.mpd': {'drm': 'all'}, 'manifest_vod.mpd': {'mode': 'vod'}}
+
+
+def legacy_item(item):
+    """The legacy manifest URLs redirect to the current route: the options of the request travel with the redirect, the
+    ones the legacy name implies are only defaults."""
+    _, name, prefix, assign = item
+    w = W.World.shared()
+    w.begin_item()
+    acc = core.Acc()
+    W.set_now(NOW)
+    url = f'{prefix}{name}' + crawl.make_query(assign)
+    r = w.get(url)
+    acc.count('evaluations')
+    acc.count('transitions')
+    acc.state(('legacy', url))
+    rec = {'kind': 'legacy', 'name': name, 'prefix': prefix, 'assign': assign, 'url': url}
+    if r.status not in (301, 302, 303, 307, 308):
+        acc.outcome(('legacy', r.status))
+        return acc
+    loc = dict(r.headers).get('Location', '')
+    parts = urllib.parse.urlsplit(loc)
+    got = dict(urllib.parse.parse_qsl(parts.query, keep_blank_values=True))
+    want = dict(LEGACY[name])
+    want.update(assign)
+    acc.nontriv(('legacy', url))
+    for k in sorted(set(got) | set(want)):
+        if k == 'mode':
+            continue        # the mode travels in the path
+        if got.get(k) != want.get(k):
+            acc.violation(sig('legacy-redirect', 'value-' + ('differs' if k in got and k in want else ('missing' if k in want else 'added')), k),
+                          f'{url} redirects to {loc}: {k}={got.get(k)!r}, the request and the legacy name mean {want.get(k)!r}', rec)
+    mode = want.get('mode', 'vod')
+    if f'/dash/{mode}/' not in parts.path:
+        acc.violation(sig('legacy-redirect', 'mode'), f'{url} redirects to {loc}, expected mode {mode}', rec)
+    return acc
+
+
 def plan(tier):
     items = []
+    for name in LEGACY:
+        for prefix in ('/dash/', '/dash/bbb/'):
+            for a in ({}, {'drm': 'playready-moov'}, {'drm': 'none'}, {'mode': 'live'}, {'mode': 'live', 'drm': 'clearkey'},
+                      {'depth': '30', 'start': 'epoch'}, {'acodec': 'ec-3', 'abr': '0'}):
+                items.append(('legacy', name, prefix, a))
     templates = [('hand_made', 'live'), ('hand_made', 'vod'), ('manifest_e', 'live'), ('manifest_n', 'live'),
-                 ('hand_made', 'odvod')]
+                 ('hand_made', 'odvod'), ('manifest_a', 'live'), ('manifest_a', 'vod'), ('manifest_b', 'vod'),
+                 ('manifest_ef', 'live'), ('manifest_h', 'live'), ('manifest_i', 'live'), ('manifest_n', 'vod'),
+                 ('manifest_vod_aiv', 'odvod')]
     singles = []
     for name, vals in INTEGRATION_VALUES.items():
         for v in vals:
@@ -353,7 +405,7 @@ def plan(tier):
         items.append((t, m, {}))
         for a in singles:
             if tier == 'quick' and (t, m) not in (('hand_made', 'live'), ('hand_made', 'vod')) and \
-                    not ({'start', 'drm', 'events', 'verr', 'depth'} & set(a)):
+                    not ({'start', 'drm', 'events', 'verr', 'aerr', 'depth'} & set(a)):
                 continue
             items.append((t, m, a))
     for t, m in templates[:(2 if tier == 'quick' else 5)]:
@@ -376,6 +428,8 @@ def plan(tier):
 
 
 def _dispatch(item):
+    if item[0] == 'int' and item[1][0] == 'legacy':
+        return legacy_item(item[1])
     return unit_layer(None) if item[0] == 'unit' else integration_item(item[1])
 
 
@@ -389,6 +443,9 @@ def run(ctx):
 
 
 def replay(record):
+    if record.get('kind') == 'legacy':
+        acc = legacy_item(('legacy', record['name'], record['prefix'], record['assign']))
+        return [(s, v[0]['what']) for s, v in acc.viol.items()]
     if record.get('kind') == 'unit':
         acc = unit_layer(None)
     else:
